@@ -167,6 +167,12 @@ class ImplWorld:
                 if op.get("deep"):
                     ckw["deep"] = True
                 src.copy_to(tgt, **ckw)
+            elif op.get("sc"):
+                name, ref = op["sc"]
+                kw.pop("before", None)
+                if ref is not None:
+                    kw.pop("kind", None)
+                getattr(self.node(op["t"], ref) if ref is not None else tgt, name)(src, **kw)
             else:
                 tgt.add(src, **kw)
         elif k == "w.addtree":
@@ -179,7 +185,12 @@ class ImplWorld:
                 kw["before"] = b
             if op.get("deep") is not None:
                 kw["deep"] = op["deep"]
-            tgt.add(self.trees[op["st"]], **kw)
+            if op.get("sc"):
+                name, ref = op["sc"]
+                kw.pop("before", None)
+                getattr(self.node(op["t"], ref) if ref is not None else tgt, name)(self.trees[op["st"]], **kw)
+            else:
+                tgt.add(self.trees[op["st"]], **kw)
         elif k == "w.copykids":
             tgt = self.node(op["t"], op["p"])
             if not op["p"]:
